@@ -13,6 +13,7 @@ EXPLANATION = (
     "(the one slice is dominated by the > 32 rejection). "
     "T8 one weight: covenant_weight_from_bytes is from_bytes(b).map(weight).unwrap_or(0) — not a piecewise sum over separately decoded instructions, which loses the look-ahead "
     "by which Loop prices its body — and Covenant::weight is opcodes_weight over the whole list."
+    " T4 reads the predicate of PushIC's leading-zero count (`== 0`) and requires the literal's bytes to be read on every path of the decode arm. T6 `collects/every`: no decoded instruction is dropped."
 )
 NOT_DECIDED = ["the arithmetic of PushIC's canonical-length formula is read, not proved", "serde (non-consensus) representation of OpCode"]
 ASSUMPTIONS = ["std::io::Read for &[u8]: read_exact consumes exactly the buffer's length or fails"]
@@ -271,7 +272,8 @@ def t4_literals(ctx):
         pay = sig(q.novers(dict(dict(agg[3])["0"][3])["0"]))
         r.check(pay == "ethnum::uint::api::<impl ethnum::U256>::from_be_bytes(buf)", "PushI/decode", "from_be_bytes(32-byte buffer)", "PushI decodes %s" % pay, db.where(bb))
         bd = [sig(x[1]) for x in q.var_def_exprs(db, "buf")]
-        r.check("[0; 32]" in bd, "PushI/len", "32-byte buffer", "PushI buffer %s" % bd)
+        import re as _re2
+        r.check(any(_re2.fullmatch(r"\[\d+; 32\]", x) for x in bd), "PushI/len", "32-byte buffer (whatever it is filled with before read_exact overwrites it)", "PushI buffer %s" % bd)
     # --- PushIC
     e = enc.get("PushIC")
     ws = [sig(q.novers(w[1])) for w in e["writes"]]
